@@ -148,6 +148,10 @@ var degenerateForms = []string{
 	"import(\"nope\")", "import(1)", "import(v)", "load(\"/nonexistent\")", "defined(1)", "dbg()", "print(boom)", "println(c, x, ch, f, m)", "printf(\"%d\", b)", "printf(a)",
 	"a.b = 1", "m.v = 2\nm.v", "m.new = 1", "c[1:2] = [1]", "b[0] = 1", "b[9] = \"x\"", "b[0:1] = \"x\"", "_t1[0] = \"x\"", "_t1[2] = nil", "_t1 += \"x\"", "ts[0] = 1", "tm[1] = 1", "tm.k = \"x\"",
 	"var a, b = 1", "a, b = [1]", "a, b = c", "a, b, c = f(1), 2", "[a, b] = c", "a.b, c[0] = 1, 2",
+	"st.A = [1, 2, 3]\nfor q in st.A {\nst.A = st.A[:1]\n}", "st.A = [1, 2, 3]\nfor q in st.A {\nst.A = []\n}", "pp = new([]int64)\n*pp = [1, 2, 3]\nfor q in *pp {\n*pp = make([]int64, 0)\n}",
+	"st2.S.A = [1, 2]\nfor q in st2.S.A {\nst2.S.A = st2.S.A[:0]\n}", "cc = [1, 2, 3]\nfor q in cc {\ncc = cc[:1]\n}", "st.B = {\"a\": 1, \"b\": 2}\nfor k, w in st.B {\nst.B = {}\n}",
+	"st.A = [1, 2, 3]\nfor q in st.A {\nst.A += 4\nif len(st.A) > 8 { break }\n}", "kk = make(struct{Tag interface, N int64})\nkk.Tag = [1, 2]\nx[kk]", "kk = make(struct{Tag interface, N int64})\nkk.Tag = [1, 2]\nx[kk] = 2",
+	"kk = make(struct{Tag interface, N int64})\nkk.Tag = {}\ndelete(x, kk)", "kk = make(struct{Tag interface, N int64})\nkk.Tag = f\n{kk: 1}", "kk = make(struct{Tag interface, N int64})\nkk.Tag = [1]\ntim[kk] = 2\nkk in [kk]",
 	"func rec(n) { return rec(n) }", "type T struct", "struct", "chan", "map", "len", "return 1, ", "throw", "break", "continue", "return",
 }
 
